@@ -977,10 +977,11 @@ shift(bitint383_t cand[static NYSETS], const unsigned int y, echs_shift_t sh)
 					nu_b += b && !echs_shift_inv_p(sh);
 				}
 			}
-			/* 384 == -1 == 4 mod 5  384 == -1 == 6 mod 7 */
-			u5 = (w + 384 + nu_b) % 5U;
+			/* 35034 == -1 == 4 mod 5  35034 == -1 == 6 mod 7
+			 * and beyond what a shift in days can amount to */
+			u5 = (w + 35034 + nu_b) % 5U;
 			nu_b = nu_b / 5 * 7 + nu_b % 5;
-			u7 = (w + 384 + nu_b) % 7U;
+			u7 = (w + 35034 + nu_b) % 7U;
 			/* u5 is the day we want to be on, Mon=0
 			 * u7 is the day we land on, Mon=0 */
 			nu_d += nu_b;
@@ -1105,6 +1106,13 @@ rrul_fill_yly(echs_instant_t *restrict tgt, size_t nti, rrulsp_t rr)
 		/* start a period early when dates can move forward
 		 * into our year */
 		y -= rr->inter;
+		if (rr->inter == 1U &&
+		    (echs_shift_dvalue(rr->shift) > 365 ||
+		     echs_shift_bday_p(rr->shift) &&
+		     echs_shift_absval(rr->shift) > 260U)) {
+			/* more than a year's worth of (business) days */
+			y--;
+		}
 	}
 
 	/* fill up the array the hard way */
